@@ -87,6 +87,41 @@ class St:
             if tr and a[0] == 'range' and a[1] == t:
                 return (a[2], a[3])
         return None
+    def tested_bounds(self, t):
+        """(lo, hi) - None on a side that nothing bounds - of the integer term t as far as the path condition says it outright: a
+        range fact, and every comparison of t itself with an integer literal that holds or fails on this path (t < n: hi n-1,
+        t <= n: hi n, t > n: lo n+1, t >= n: lo n, t == n: both n; a failed comparison is its complement; `n op t` is `t op' n`)."""
+        lo = hi = None
+        def narrow(l, h):
+            nonlocal lo, hi
+            if l is not None:
+                lo = l if lo is None else max(lo, l)
+            if h is not None:
+                hi = h if hi is None else min(hi, h)
+        isint = lambda x: x[0] == 'lit' and isinstance(x[1], int) and not isinstance(x[1], bool)
+        for a, tr in self.pc:
+            if a[0] == 'range' and tr and a[1] == t:
+                narrow(a[2], a[3])
+            elif a[0] == 'bin' and len(a) == 4 and a[1] in ('Eq', 'Lt', 'Le', 'Gt', 'Ge'):
+                if a[2] == t and isint(a[3]):
+                    op, n = a[1], a[3][1]
+                elif a[3] == t and isint(a[2]):
+                    op, n = {'Eq': 'Eq', 'Lt': 'Gt', 'Le': 'Ge', 'Gt': 'Lt', 'Ge': 'Le'}[a[1]], a[2][1]
+                else:
+                    continue
+                if not tr:
+                    op = {'Lt': 'Ge', 'Le': 'Gt', 'Gt': 'Le', 'Ge': 'Lt', 'Eq': None}[op]
+                if op == 'Eq':
+                    narrow(n, n)
+                elif op == 'Lt':
+                    narrow(None, n - 1)
+                elif op == 'Le':
+                    narrow(None, n)
+                elif op == 'Gt':
+                    narrow(n + 1, None)
+                elif op == 'Ge':
+                    narrow(n, None)
+        return lo, hi
     def interval_decides(self, op, x, y):
         """Truth of the integer comparison `x op y` when the intervals of both sides decide it for every pair of values, else None:
         x in [a, b], y in [c, d]:  x < y holds if b < c and fails if a >= d;  x <= y holds if b <= c and fails if a > d;
@@ -285,6 +320,7 @@ class Interp:
         sub.elem_refs = self.elem_refs
         sub.listed_seqs = self.listed_seqs
         sub.carry_env, sub.carry_exact = self.carry_env, self.carry_exact
+        sub.cast_ranges = self.cast_ranges
         env = {}
         states = [St(env, st.heap, st.ev, st.pc, st.ctr)]
         for p, a in zip(rec['params'], args):
@@ -580,7 +616,22 @@ class Interp:
                     d = self.discr_of(v[1])
                     outs.append(Out('val', ('lit', d) if d is not None else ('cast', v, e.get('ty')), o.st))
                 else:
-                    outs.append(Out('val', ('cast', v, e.get('ty')), o.st))
+                    s2 = o.st
+                    srng, trng = INT_RANGE.get(hirq.strip_refs(str(e['e'].get('ty') or ''))), INT_RANGE.get(tty)
+                    if self.cast_ranges and srng is not None and trng is not None:
+                        # `x as T` between integer types is x itself whenever x is representable in T.  Where this path has tested
+                        # x against literals, those tests together with the range of x's own type (known here, from the operand's
+                        # type - the term does not carry it) bound x; if that interval lies within T the cast term has the same
+                        # bounds, recorded as a range fact so that later tests of the cast value are decided from what is known
+                        # (`id as i32 >= 0` under `id <= i32::MAX as u64`, id: u64).  Nothing is recorded when the path says
+                        # nothing about x, or when the interval does not fit T (the cast may wrap: nothing is claimed).
+                        lo, hi = s2.tested_bounds(v)
+                        if lo is not None or hi is not None:
+                            lo, hi = max(srng[0], srng[0] if lo is None else lo), min(srng[1], srng[1] if hi is None else hi)
+                            fact = ('range', ('cast', v, e.get('ty')), lo, hi)
+                            if lo <= hi and trng[0] <= lo and hi <= trng[1] and (fact, True) not in s2.pc:
+                                s2 = s2.assume(fact, True)
+                    outs.append(Out('val', ('cast', v, e.get('ty')), s2))
             else:
                 outs.append(o)
         return outs
@@ -1177,6 +1228,9 @@ class Interp:
                 outs.extend(self.loop_common(e, s0, one, always=True))
         return outs
 
+    cast_ranges = False   # (set on an instance) an integer cast of a value this path has tested against literals records the bounds of the
+                          # cast value as a ('range', ..) fact of the path condition, see ev_Cast (off by default: rules that read every
+                          # atom of a path condition as a branch condition of the analysed code keep seeing only those)
     exact_seqs = False    # (set on an instance) vectors / arrays all of whose elements are known values are evaluated element by element:
                           # index, for, pop, extend, enumerate / map / filter, any / all / position / find / count, first / last /
                           # split_last / windows (literal evaluation of list-valued code; off by default: rules that read the
